@@ -15,7 +15,8 @@ Print Assumptions C11_precise.
 (* a rejected answer (bad signature under verify, parse error, critical extension, storage
    fault) changes nothing: no entry of it can influence any later verdict *)
 Theorem C11_rejected_leaves_no_trace : forall cfg ev f st,
-  (forall id e, In (id, e) (entries st) -> unacceptable cfg ev f e) -> refresh_all cfg ev f st = st.
+  (forall id e, In (id, e) (entries st) -> unacceptable cfg ev f e) ->
+  entries (refresh_all cfg ev f st) = entries st /\ disk (refresh_all cfg ev f st) = disk st.
 Proof. exact refresh_failed_keeps. Qed.
 Print Assumptions C11_rejected_leaves_no_trace.
 
